@@ -467,6 +467,15 @@ def family_M(tier: str) -> Iterator[Prog]:
         for w in wraps:
             fix = 'xs' in args and any(ln.startswith('for') for ln in lines)
             yield make('M', wrap(lines, w) + [ret], args, 'M-list', fixpoint=fix)
+    # selections whose operands are pinned to DIFFERENT formats (see SELECT_CELLS): an operand that is the
+    # infinity a selection never returns must not cap the result by its own (narrower) finite range
+    sels = ['min(x, y)', 'max(x, y)', 'min(y, x)', 'max(y, x)', 'min(x, y, x)', 'max(x, y, y)', 'min(x, y, 1)', 'max(x, -1, y)',
+            'min(max(x, y), y)', 'max(min(x, y), x)', 'min([x, y])', 'max([x, y, x])', 'min(-x, y)', 'max(abs(x), y)']
+    posts = ['r', 'r + r', '-r'] if tier != 'quick' else ['r + r']
+    for sel in sels:
+        for w in ('fp.REAL', None):
+            for post in posts:
+                yield make('M', wrap([f'r = {sel}', f'q = {post}'], w) + ['return (r, q)'], {'x', 'y'}, 'M-select')
 
 
 FAMILIES = {'A': family_A, 'B': family_B, 'L': family_L, 'H': family_H, 'M': family_M}
@@ -482,6 +491,11 @@ CELLS_MORE = [('REAL', 'fx', 'int'), ('CX', 'fa', 'fx'), ('CB', 'fz', 'fz'), ('R
 CELLS_MIXED = [('CM', 'fa', 'fx', 'fa'), ('REAL', 'fa', 'fx', 'fx'), ('CM', 'fc', 'fa', 'fa'), ('CB', 'fa', 'fx', 'fa'), ('REAL', 'fx', 'int', 'fx'),
                ('CA', 'fx', 'fa', 'fa'), ('CX', 'int', 'fa', 'int'), ('CB', 'real', 'fx', 'fx'), ('REAL', 'fz', 'fa', 'fz')]
 CELL_ONE_ARG = ('CM', 'fc', 'fa')
+# (caller ctx, format of x, format of y): two IEEE formats of different exponent range, both with infinities
+# (fa = IEEE(2,4) max 3, fb = IEEE(3,5) max 12, fc = IEEE(3,6) max 14), and a fixed format; the scopes REAL and
+# CB (= fc's own context) are wide enough that nothing re-rounds the selection into the narrower format
+SELECT_CELLS = [('REAL', 'fa', 'fc'), ('CB', 'fc', 'fa'), ('REAL', 'fb', 'fa'), ('CB', 'fa', 'fb'), ('CB', 'fa', 'fx'),
+                ('REAL', 'fx', 'fc')]
 CELLS_THOROUGH_EXTRA = [('CU', 'fu', 'fu'), ('INT', 'fa', 'fa'), ('CZ', 'fz', 'fz'), ('CM', 'fa', 'fa'),
                         ('CB', 'fu', 'fu'), ('REAL', 'fu', 'fu'), ('INT', 'fx', 'fx'), ('CZ', 'fa', 'fa'),
                         ('REAL', 'real', 'fa'), ('REAL', 'int', 'int'), ('CX', 'real', 'fx'), ('CM', 'fx', 'fx')]
@@ -490,6 +504,8 @@ CELLS_THOROUGH_EXTRA = [('CU', 'fu', 'fu'), ('INT', 'fa', 'fa'), ('CZ', 'fz', 'f
 def cells(prog: Prog, tier: str):
     """[(ctx name, {arg: format name})]"""
     out = []
+    if prog.tag == 'M-select':
+        return [(c, {'x': fx_, 'y': fy_}) for c, fx_, fy_ in SELECT_CELLS]
     base = list(CELLS_QUICK)
     lean = tier == 'quick' and (prog.fam == 'B' or prog.tag == 'M-set')
     if lean:
